@@ -60,7 +60,7 @@ def world(ctx, wrap=True):
     shim = ctx.build_ir('l3_world.cpp', 'cut', extra=ext)
     msg = ctx.build_ir(REPO + '/runtime/message.cpp', 'cut', extra=['-DFIX8_MAX_FLD_LENGTH=%d' % FLD])
     ll = ctx.link_ir([shim, msg], 'l3all')
-    opts = ['--typed-alloc', '--ptrcmp']
+    opts = ['--typed-alloc', '--ptrcmp', '--ptrdiff']
     for w in (M_BFENC, M_EXT, M_EXTFW): opts += ['--wrap', w]
     info = ctx.translate(ll, ROOTS, 'l3w.c', stubs={M_CTX: 'st_ctx_ctor', 'strlen': 'st_strlen', M_FNCALL: 'st_fn_msg_call'}, stubfiles=['common.stubs'], models=['cxx.c', 'stubs.c', 'l3_env.c'], opts=opts,
                          provided=['gmtime_r'])
@@ -122,7 +122,7 @@ def harness(ctx, name, cfile, shape, defs=(), *, functions=(), desc='', tier='qu
     msg, fields, nel = SHAPES[shape]
     shape_header(ctx, shape, msg, fields, nel)
     d = list(defs) + ['L3_SHAPE="shape_%s.h"' % shape, 'VF_GLOBAL_INIT=' + GINIT.replace('.', '_2e'), 'VF_MAXCOPY=%d' % FLD, 'L3_CAP=%d' % cap]
-    h = Harness(name, VERIF + '/harness/' + cfile, defines=d, unwind=70, unwindset=unwindset(msglen=cap) + us_main(cap=cap), timeout=timeout, mem_gb=12, nochecks=True,
+    h = Harness(name, VERIF + '/harness/' + cfile, defines=d, unwind=70, unwindset=unwindset(msglen=cap) + us_main(cap=cap), timeout=timeout, mem_gb=12, nochecks=True, flags=['--max-field-sensitivity-array-size', '256'],
                 functions=FUN_BUILD + list(functions), stubs=STUBS, tier=tier, desc=desc,
                 bounds='message %s, %s; ints over their whole digit class (sign x number of decimal digits), string bytes any but SOH/NUL, data bytes any%s; FIX8_MAX_FLD_LENGTH scaled to %d; '
                        'CBMC memory-safety instrumentation off (memory safety of the codec is C03)%s'
